@@ -21,7 +21,9 @@ RULE = (
     "strategies x subsets of force_merge_fields (incl. the rejected start/end); GFF3 importer and GTF importer (id_spec='ID', "
     "inference off); everything through create_db, or the first m through create_db and the rest through update() (text "
     "path or Feature list; file or :memory: database). Non-trivial = both an equal-columns and a different-columns "
-    "collision, or a third arrival on one key. Distinct by hash."
+    "collision, or a third arrival on one key. Distinct by hash. (merge-histories) all sequences of up to 3 (quick) / 5 "
+    "(thorough) operations over a merge-centred 8-operation alphabet (merge / create_unique updates of colliding records, deletes "
+    "of the plain key and of <key>_1, reopen) against the same model."
 )
 ASSUMPTIONS = [
     "explicit ids never look like generated <key>_<n> names; Parent/transcript/gene values are single tokens",
